@@ -489,7 +489,8 @@ def run_random(ctx, case):
             if plot == "FDD":
                 ss.mpe_from_plot(name, DF=0.5, freqlim=flim2)
             else:
-                ss.mpe_from_plot(name, rtol=1e-6, freqlim=flim2)
+                # the pairs handed over ARE poles of the table: they are found with any tolerance, zero included
+                ss.mpe_from_plot(name, rtol=(0.0 if case["k"] % 2 else 1e-6), freqlim=flim2)
         except Exception as e:  # noqa: BLE001
             s2 = sess.get("s")
             if s2 is not None and s2.ok and s2.model:
